@@ -16,7 +16,7 @@ Recognised subset (everything else is rejected):
   winners      np.argwhere(S == np.amax(S)).flatten() + self.index_fixer ; break_tie(winners, self.tie_breaker)
   break_tie    tie_breaker == "..." [and include_accept] tests; np.random.choice(alts) / alts[0] / alts / raise
 """
-import ast, hashlib, os
+import ast, hashlib, os, re, sys
 
 class TErr(Exception):
     pass
@@ -36,6 +36,8 @@ def _body(fn):
 def _find(nodes, kind, name):
     for n in nodes:
         if isinstance(n, kind) and n.name == name:
+            if getattr(n, "decorator_list", None):
+                raise TErr("%s %s is decorated (a decorator can change what the body means)" % (kind.__name__, name))
             return n
     raise TErr("%s %s not found" % (kind.__name__, name))
 
@@ -1234,3 +1236,659 @@ def translate_flow2(repo):
            "From Coq Require Import ZArith List Bool.", "Import ListNotations.", "From SCK Require Import FlowModel BipModel.", "From SCKGen Require Import FlowGen.", "Local Open Scope Z_scope.", "", PRELUDE2]
     return "\n".join(hdr) + "\n".join([tr_ff_result(_find(mod.body, ast.FunctionDef, "ford_fulkerson")), tr_net(_find(mod.body, ast.FunctionDef, "convert_bipartite_graph_to_flow_network")),
                                        tr_readoff(_find(mod.body, ast.FunctionDef, "maximum_cardinality_matching_bipartite"))])
+
+# =====================================================================================================================
+# later additions: preflib_utils, randomized_scoring, MaximumWeightMatching, RandomSerialDictatorship, GaleShapley
+# =====================================================================================================================
+def selfattr(e, name): return isinstance(e, ast.Attribute) and e.attr == name and is_name(e.value, "self")
+# ---------------------------------------------------------------------------------------------------------------------
+# preflib_utils.py: the five converters -> Gallina. The instance is abstracted as (declared data type, number of alternatives,
+# list of (order, multiplicity)) - what flatten_strict() / vote_map().items() / preferences + multiplicity iterate over.
+# numpy idioms (fixed reading, PRELUDE): np.array(X) - 1, np.zeros(m, dtype=int), np.full(m, np.nan), np.arange(a, b), np.sort,
+# row[idx] = vector (scatter, in order, last write wins), row[idx] = scalar, np.random.shuffle (an oracle permutation `shuf`).
+# ---------------------------------------------------------------------------------------------------------------------
+PL_PRELUDE = '''Inductive gtie := GAccept | GFirst | GRandom.       (* tie_breaker == "accept" / "first" / "random" *)
+Definition arange (a b : Z) : list Z := map (fun i => a + Z.of_nat i) (seq 0 (Z.to_nat (b - a))).
+Definition scatter (row : list (option Z)) (idx vals : list Z) : list (option Z) :=
+  fold_left (fun r iv => upd r (Z.to_nat (fst iv)) (Some (snd iv))) (combine idx vals) row.
+Definition scatter_const (row : list (option Z)) (idx : list Z) (v : Z) : list (option Z) :=
+  fold_left (fun r i => upd r (Z.to_nat i) (Some v)) idx row.
+'''
+
+
+class PlC:
+    def __init__(self, M):
+        self.M = M          # Coq text for the number of alternatives (a nat)
+        self.vec = set()    # names bound to index vectors (list Z)
+    def num_alts(self, e):
+        return (isinstance(e, ast.Attribute) and e.attr == "num_alternatives" and is_name(e.value, "instance")) or (isinstance(e, ast.Name) and e.id == self.mname)
+    def scalar(self, e):
+        k = _intconst(e)
+        if k is not None: return str(k) if k >= 0 else "(%d)" % k
+        if self.num_alts(e): return "(Z.of_nat %s)" % self.M
+        if isinstance(e, ast.Name): return e.id
+        if isinstance(e, ast.Call) and is_name(e.func, "len") and len(e.args) == 1 and isinstance(e.args[0], ast.Name): return "(Z.of_nat (length %s))" % e.args[0].id
+        if isinstance(e, ast.BinOp) and isinstance(e.op, (ast.Add, ast.Sub)): return "(%s %s %s)" % (self.scalar(e.left), "+" if isinstance(e.op, ast.Add) else "-", self.scalar(e.right))
+        _fail(e, "unsupported scalar")
+    def vector(self, e):
+        if isinstance(e, ast.BinOp) and isinstance(e.op, ast.Sub) and _intconst(e.right) is not None and isinstance(e.left, ast.Call) and _is_np(e.left.func, "array") and len(e.left.args) == 1 and isinstance(e.left.args[0], ast.Name):
+            return "(map (fun a_ : Z => a_ - %d) %s)" % (_intconst(e.right), e.left.args[0].id)
+        if isinstance(e, ast.Call) and _is_np(e.func, "arange") and len(e.args) == 2: return "(arange %s %s)" % (self.scalar(e.args[0]), self.scalar(e.args[1]))
+        if isinstance(e, ast.Call) and _is_np(e.func, "sort") and len(e.args) == 1 and isinstance(e.args[0], ast.Name): return "(sortZ %s)" % e.args[0].id
+        _fail(e, "unsupported vector expression")
+    def newrow(self, e):
+        if isinstance(e, ast.Call) and _is_np(e.func, "zeros") and len(e.args) == 1 and self.num_alts(e.args[0]) and [k.arg for k in e.keywords] == ["dtype"] and is_name(e.keywords[0].value, "int"):
+            return "(repeat (Some 0) %s)" % self.M
+        if isinstance(e, ast.Call) and _is_np(e.func, "full") and len(e.args) == 2 and self.num_alts(e.args[0]) and _is_np(e.args[1], "nan") and not e.keywords:
+            return "(repeat (@None Z) %s)" % self.M
+        return None
+    def stmts(self, body, fall, row):
+        """straight-line statements (with the tie_breaker if/else and the empty-class `continue`) as a let-chain ending in `fall`"""
+        if not body: return fall
+        s, rest = body[0], body[1:]
+        more = lambda: self.stmts(rest, fall, row)
+        if isinstance(s, ast.Assign) and len(s.targets) == 1:
+            t, v = s.targets[0], s.value
+            if isinstance(t, ast.Name):
+                nr = self.newrow(v)
+                if nr is not None:
+                    if row[0] is not None and row[0] != t.id: _fail(s, "one row variable expected")
+                    row[0] = t.id; return "let %s := %s in\n" % (t.id, nr) + more()
+                if _intconst(v) is not None: return "let %s := %d in\n" % (t.id, _intconst(v)) + more()
+                return "let %s := %s in\n" % (t.id, self.vector(v)) + more()
+            if isinstance(t, ast.Subscript) and isinstance(t.value, ast.Name) and t.value.id == row[0] and isinstance(t.slice, ast.Name):
+                if isinstance(v, ast.Call): return "let %s := scatter %s %s %s in\n" % (row[0], row[0], t.slice.id, self.vector(v)) + more()
+                return "let %s := scatter_const %s %s %s in\n" % (row[0], row[0], t.slice.id, self.scalar(v)) + more()
+            _fail(s, "unsupported assignment")
+        if isinstance(s, ast.AugAssign) and isinstance(s.target, ast.Name) and isinstance(s.op, ast.Add):
+            return "let %s := %s + %s in\n" % (s.target.id, s.target.id, self.scalar(s.value)) + more()
+        if isinstance(s, ast.Expr) and isinstance(s.value, ast.Call) and isinstance(s.value.func, ast.Attribute) and s.value.func.attr == "shuffle" and len(s.value.args) == 1 and isinstance(s.value.args[0], ast.Name):
+            x = s.value.args[0].id; return "let %s := shuf %s in\n" % (x, x) + more()
+        if isinstance(s, ast.If):
+            t = s.test
+            # if len(x) == 0: continue
+            if (isinstance(t, ast.Compare) and isinstance(t.ops[0], ast.Eq) and _intconst(t.comparators[0]) == 0 and isinstance(t.left, ast.Call) and is_name(t.left.func, "len")
+                    and len(s.body) == 1 and isinstance(s.body[0], ast.Continue) and not s.orelse):
+                return "if (length %s =? 0)%%nat then %s else\n" % (t.left.args[0].id, fall) + more()
+            tb = self.tbtest(t)
+            if tb is not None:
+                arms = self.tbchain(s)          # dict constructor -> statement list, None key = otherwise
+                if getattr(self, "known", None):     # already inside an arm of `match pol`: the test is decided
+                    return self.stmts(list(arms.get(self.known, arms[None])) + rest, fall, row)
+                out = "match pol with\n"
+                for c in ("GAccept", "GFirst", "GRandom"):
+                    self.known = c
+                    out += "| %s => %s\n" % (c, self.stmts(list(arms.get(c, arms[None])) + rest, fall, row))
+                    self.known = None
+                return out + "end"
+            _fail(s, "unsupported if")
+        _fail(s, "unsupported statement")
+    def tbtest(self, t):
+        if isinstance(t, ast.Compare) and len(t.ops) == 1 and isinstance(t.ops[0], ast.Eq) and is_name(t.left, "tie_breaker") and isinstance(t.comparators[0], ast.Constant):
+            return {"accept": "GAccept", "first": "GFirst", "random": "GRandom"}.get(t.comparators[0].value)
+        return None
+    def tbchain(self, s):
+        """if tie_breaker == A: X elif ... else: Y  ->  {constructor: stmts, None: else-stmts}; nested ifs inside an arm are expanded by stmts()"""
+        arms = {}
+        while True:
+            c = self.tbtest(s.test)
+            if c is None: _fail(s, "tie_breaker == '...' expected")
+            arms[c] = list(s.body)
+            if len(s.orelse) == 1 and isinstance(s.orelse[0], ast.If) and self.tbtest(s.orelse[0].test) is not None and s.orelse[0] is not None and len(s.orelse) == 1 and not self._has_tail(s):
+                s = s.orelse[0]; continue
+            arms[None] = list(s.orelse)
+            return arms
+    def _has_tail(self, s): return False
+
+def tr_converter(fn, tag, guard_kind):
+    c = PlC("m"); c.mname = None
+    body = _body(fn)
+    # guard: if instance.data_type != "xxx": raise   /   if not isinstance(instance, CategoricalInstance): raise
+    g = body[0]
+    ok = isinstance(g, ast.If) and not g.orelse and len(g.body) == 1 and isinstance(g.body[0], ast.Raise)
+    if ok and guard_kind != "CAT":
+        t = g.test
+        ok = (isinstance(t, ast.Compare) and len(t.ops) == 1 and isinstance(t.ops[0], ast.NotEq) and isinstance(t.left, ast.Attribute) and t.left.attr == "data_type"
+              and is_name(t.left.value, "instance") and isinstance(t.comparators[0], ast.Constant) and t.comparators[0].value == guard_kind.lower())
+    elif ok:
+        t = g.test
+        ok = (isinstance(t, ast.UnaryOp) and isinstance(t.op, ast.Not) and isinstance(t.operand, ast.Call) and is_name(t.operand.func, "isinstance") and is_name(t.operand.args[0], "instance")
+              and is_name(t.operand.args[1], "CategoricalInstance"))
+    if not ok: _fail(g, "data-type guard expected first")
+    src = None; arrname = None; loop = None; ret = None
+    for s in body[1:]:
+        if isinstance(s, ast.Expr) and isinstance(s.value, ast.Call) and (is_name(s.value.func, "print") or is_name(s.value.func, "check_tie_breaker")): continue
+        if isinstance(s, ast.Assign) and isinstance(s.targets[0], ast.Name):
+            v = s.value; t = s.targets[0].id
+            if isinstance(v, ast.Call) and isinstance(v.func, ast.Attribute) and v.func.attr in ("flatten_strict", "vote_map") and is_name(v.func.value, "instance") and not v.args:
+                src = (t, v.func.attr); continue
+            if isinstance(v, ast.Attribute) and v.attr == "num_alternatives" and is_name(v.value, "instance"):
+                c.mname = t; continue
+            if isinstance(v, ast.List) and not v.elts: arrname = t; continue
+            _fail(s, "unsupported assignment before the loop")
+        elif isinstance(s, ast.For): 
+            if loop is not None: _fail(s, "one loop expected")
+            loop = s
+        elif isinstance(s, ast.Return): ret = s
+        else: _fail(s, "unsupported statement")
+    if loop is None or ret is None or arrname is None: _fail(fn, "arr = [], a loop and a return expected")
+    # return XProfile.of(np.array(arr))
+    r = ret.value
+    if not (isinstance(r, ast.Call) and isinstance(r.func, ast.Attribute) and r.func.attr == "of" and len(r.args) == 1 and isinstance(r.args[0], ast.Call) and _is_np(r.args[0].func, "array")
+            and is_name(r.args[0].args[0], arrname)): _fail(ret, "return <Profile>.of(np.array(arr)) expected")
+    # loop header
+    it = loop.iter; tgt = loop.target
+    if guard_kind == "CAT":
+        if not (isinstance(tgt, ast.Name) and isinstance(it, ast.Attribute) and it.attr == "preferences" and is_name(it.value, "instance")): _fail(loop, "for p in instance.preferences expected")
+        ORDER = tgt.id; MULT = None
+    else:
+        okh = isinstance(tgt, ast.Tuple) and len(tgt.elts) == 2 and all(isinstance(x, ast.Name) for x in tgt.elts) and src is not None
+        if okh and src[1] == "flatten_strict": okh = is_name(it, src[0])
+        elif okh: okh = isinstance(it, ast.Call) and isinstance(it.func, ast.Attribute) and it.func.attr == "items" and is_name(it.func.value, src[0])
+        if not okh: _fail(loop, "for order, multiplicity in flattened_order / vote_map.items() expected")
+        ORDER, MULT = tgt.elts[0].id, tgt.elts[1].id
+    lb = list(loop.body)
+    # last statement: for _ in range(mult): arr.append(preference)
+    rep = lb[-1]
+    ok = (isinstance(rep, ast.For) and isinstance(rep.iter, ast.Call) and is_name(rep.iter.func, "range") and len(rep.iter.args) == 1 and len(rep.body) == 1
+          and isinstance(rep.body[0], ast.Expr) and isinstance(rep.body[0].value, ast.Call) and isinstance(rep.body[0].value.func, ast.Attribute)
+          and rep.body[0].value.func.attr == "append" and is_name(rep.body[0].value.func.value, arrname) and isinstance(rep.body[0].value.args[0], ast.Name))
+    if ok:
+        ra = rep.iter.args[0]
+        ok = is_name(ra, MULT) if MULT else (isinstance(ra, ast.Subscript) and isinstance(ra.value, ast.Attribute) and ra.value.attr == "multiplicity" and is_name(ra.value.value, "instance") and is_name(ra.slice, ORDER))
+    if not ok: _fail(rep, "for _ in range(multiplicity): arr.append(preference) expected last in the loop")
+    ROW = rep.body[0].value.args[0].id
+    row = [None]
+    strict = src is not None and src[1] == "flatten_strict"
+    inner = [s for s in lb[:-1] if isinstance(s, ast.For)]
+    if strict:
+        if inner: _fail(loop, "no inner loop expected in a strict converter")
+        rowtxt = c.stmts(lb[:-1], "@ROW@", row)
+        if row[0] != ROW: _fail(loop, "the appended row is not the one built")
+        rowtxt = rowtxt.replace("@ROW@", ROW)
+        sig = "(m : nat) (%s : list Z)" % ORDER; oty = "list Z"
+    else:
+        if len(inner) != 1 or lb.index(inner[0]) != len(lb) - 2: _fail(loop, "exactly one inner loop over the indifference classes expected before the append loop")
+        il = inner[0]
+        if not (isinstance(il.target, ast.Name) and is_name(il.iter, ORDER)): _fail(il, "for tied_items in order expected")
+        pre = c.stmts(lb[:lb.index(il)], "@PRE@", row)
+        if row[0] != ROW: _fail(loop, "the appended row is not the one built")
+        state = [ROW] + [s.targets[0].id for s in lb[:lb.index(il)] if isinstance(s, ast.Assign) and isinstance(s.targets[0], ast.Name) and s.targets[0].id != ROW]
+        if len(state) != 2: _fail(loop, "row and current_rank expected as loop state")
+        tup = "(%s, %s)" % tuple(state)
+        bodytxt = c.stmts(list(il.body), tup, row)
+        rowtxt = pre.replace("@PRE@", "fst (fold_left (fun (st_ : list (option Z) * Z) (%s : list Z) => let '%s := st_ in\n%s) %s %s)" % (il.target.id, tup, bodytxt, ORDER, tup))
+        sig = "(pol : gtie) (shuf : list Z -> list Z) (m : nat) (%s : list (list Z))" % ORDER; oty = "list (list Z)"
+    args = "m om_" if strict else "pol shuf m om_"
+    conv_sig = "(m : nat)" if strict else "(pol : gtie) (shuf : list Z -> list Z) (m : nat)"
+    call = "gen_%s_row %s (fst om_)" % (tag, "m" if strict else "pol shuf m")
+    return ("(* preflib_%s_to_profile (line %d): one row of the profile *)\nDefinition gen_%s_row %s : list (option Z) :=\n%s.\n"
+            "(* the converter: None = ValueError of the data-type guard; every order is appended `multiplicity` times *)\n"
+            "Definition gen_%s (actual : kind) %s (votes : list (%s * nat)) : option (list (list (option Z))) :=\n"
+            "  if negb (kind_eqb actual %s) then None else\n  Some (fold_left (fun (arr : list (list (option Z))) (om_ : %s * nat) => arr ++ repeat (%s) (snd om_)) votes []).\n"
+            % (tag, fn.lineno, tag, sig, rowtxt, tag, conv_sig, oty, guard_kind, oty, call))
+
+def translate_preflib(repo):
+    src = open(os.path.join(repo, "socialchoicekit", "preflib_utils.py")).read()
+    mod = ast.parse(src)
+    hdr = ["(* GENERATED by harness/translate.py from preflib_utils.py. Do not edit. *)", "From Coq Require Import ZArith List Bool.", "Import ListNotations.",
+           "From SCK Require Import Preflib.", "Local Open Scope Z_scope.", "", PL_PRELUDE]
+    out = []
+    for tag, kind in (("soc", "SOC"), ("soi", "SOI"), ("toc", "TOC"), ("toi", "TOI"), ("categorical", "CAT")):
+        out.append(tr_converter(_find(mod.body, ast.FunctionDef, "preflib_%s_to_profile" % tag), tag if tag != "categorical" else "cat", kind))
+    return "\n".join(hdr) + "\n".join(out)
+
+
+# ---------------------------------------------------------------------------------------------------------------------
+# randomized_scoring.py: BaseRandomizedScoring (__init__, score, scf) and the five subclasses' choice of scoring rule
+# ---------------------------------------------------------------------------------------------------------------------
+def translate_randscoring(repo):
+    src = open(os.path.join(repo, "socialchoicekit", "randomized_scoring.py")).read()
+    mod = ast.parse(src)
+    base = _find(mod.body, ast.ClassDef, "BaseRandomizedScoring")
+    init = _find(base.body, ast.FunctionDef, "__init__"); sc = _find(base.body, ast.FunctionDef, "score"); scf = _find(base.body, ast.FunctionDef, "scf")
+    # __init__: self.voting_rule = voting_rule; self.index_fixer = 0 if zero_indexed else 1
+    b = _body(init)
+    ok = (len(b) == 2 and isinstance(b[0], ast.Assign) and selfattr(b[0].targets[0], "voting_rule") and is_name(b[0].value, "voting_rule")
+          and isinstance(b[1], ast.Assign) and selfattr(b[1].targets[0], "index_fixer") and isinstance(b[1].value, ast.IfExp) and is_name(b[1].value.test, "zero_indexed")
+          and _intconst(b[1].value.body) is not None and _intconst(b[1].value.orelse) is not None)
+    if not ok: _fail(init, "BaseRandomizedScoring.__init__ shape")
+    fz, fo = _intconst(b[1].value.body), _intconst(b[1].value.orelse)
+    # score: return self.voting_rule.score(profile)
+    b = _body(sc)
+    ok = (len(b) == 1 and isinstance(b[0], ast.Return) and isinstance(b[0].value, ast.Call) and isinstance(b[0].value.func, ast.Attribute) and b[0].value.func.attr == "score"
+          and selfattr(b[0].value.func.value, "voting_rule") and len(b[0].value.args) == 1 and is_name(b[0].value.args[0], sc.args.args[1].arg))
+    if not ok: _fail(sc, "score = self.voting_rule.score(profile) expected")
+    # scf: score = self.score(profile); return np.random.choice(np.arange(score.shape[0]), p=score/np.sum(score)) + self.index_fixer
+    b = _body(scf)
+    ok = (len(b) == 2 and isinstance(b[0], ast.Assign) and isinstance(b[0].targets[0], ast.Name) and isinstance(b[0].value, ast.Call) and selfattr(b[0].value.func, "score")
+          and isinstance(b[1], ast.Return) and isinstance(b[1].value, ast.BinOp) and isinstance(b[1].value.op, ast.Add) and selfattr(b[1].value.right, "index_fixer"))
+    if ok:
+        S = b[0].targets[0].id; call = b[1].value.left
+        ok = (isinstance(call, ast.Call) and isinstance(call.func, ast.Attribute) and call.func.attr == "choice" and isinstance(call.func.value, ast.Attribute) and call.func.value.attr == "random"
+              and len(call.args) == 1 and [k.arg for k in call.keywords] == ["p"])
+    if ok:
+        pop, p = call.args[0], call.keywords[0].value
+        ok = (isinstance(pop, ast.Call) and _is_np(pop.func, "arange") and len(pop.args) == 1 and isinstance(pop.args[0], ast.Subscript) and isinstance(pop.args[0].value, ast.Attribute)
+              and pop.args[0].value.attr == "shape" and is_name(pop.args[0].value.value, S) and _intconst(pop.args[0].slice) == 0
+              and isinstance(p, ast.BinOp) and isinstance(p.op, ast.Div) and is_name(p.left, S) and isinstance(p.right, ast.Call) and _is_np(p.right.func, "sum")
+              and len(p.right.args) == 1 and is_name(p.right.args[0], S) and not p.right.keywords)
+    if not ok: _fail(scf, "np.random.choice(np.arange(score.shape[0]), p=score/np.sum(score)) + self.index_fixer expected")
+    out = ["(* GENERATED by harness/translate.py from randomized_scoring.py. Do not edit. *)", "From Coq Require Import ZArith QArith List Bool.", "Import ListNotations.",
+           "From SCK Require Import VoteExt.", "",
+           "(* BaseRandomizedScoring.scf: the sampler is handed the population 0..len(score)-1 and the vector score / sum(score); its draw is shifted by the index fixer *)",
+           "Definition gen_rand_fixer (zero_indexed : bool) : Z := if zero_indexed then %d%%Z else %d%%Z." % (fz, fo),
+           "Definition gen_rand_population (score : list Q) : list nat := seq 0 (length score).",
+           "Definition gen_rand_p (score : list Q) : list Q := map (fun x => Qred (x / sumQl score)) score.",
+           "Definition gen_rand_scf (zero_indexed : bool) (score : list Q) (sampler : list nat -> list Q -> nat) : Z :=",
+           "  (Z.of_nat (sampler (gen_rand_population score) (gen_rand_p score)) + gen_rand_fixer zero_indexed)%Z.", "",
+           "(* which deterministic scoring rule each randomized rule scores with (index into Plurality, Borda, Veto, KApproval, Harmonic) *)"]
+    names = ["Plurality", "Borda", "Veto", "KApproval", "Harmonic"]
+    rows = []
+    for nm in names:
+        cls = _find(mod.body, ast.ClassDef, "Randomized" + nm)
+        if not (len(cls.bases) == 1 and is_name(cls.bases[0], "BaseRandomizedScoring")): _fail(cls, "subclass of BaseRandomizedScoring expected")
+        meths = [x for x in cls.body if isinstance(x, ast.FunctionDef)]
+        if [x.name for x in meths] != ["__init__"]: _fail(cls, "only __init__ expected in Randomized%s" % nm)
+        b = _body(meths[0])
+        ok = (len(b) == 2 and isinstance(b[0], ast.Assign) and is_name(b[0].targets[0], "voting_rule") and isinstance(b[0].value, ast.Call) and isinstance(b[0].value.func, ast.Name)
+              and isinstance(b[1], ast.Expr) and isinstance(b[1].value, ast.Call) and isinstance(b[1].value.func, ast.Attribute) and b[1].value.func.attr == "__init__"
+              and {k.arg: getattr(k.value, "id", None) for k in b[1].value.keywords} == {"voting_rule": "voting_rule", "zero_indexed": "zero_indexed"} and not b[1].value.args)
+        if not ok: _fail(cls, "voting_rule = X(...); super().__init__(voting_rule=voting_rule, zero_indexed=zero_indexed) expected")
+        ctor = b[0].value
+        if ctor.func.id not in names: _fail(ctor, "unknown scoring rule")
+        kws = {k.arg: getattr(k.value, "id", None) for k in ctor.keywords}
+        want = {"zero_indexed": "zero_indexed"}
+        if ctor.func.id == "KApproval": want["k"] = "k"
+        if kws != want or ctor.args: _fail(ctor, "constructor arguments")
+        rows.append("  | %d%%nat => %d%%nat" % (names.index(nm), names.index(ctor.func.id)))
+    out.append("Definition gen_rand_rule (i : nat) : nat :=\n  match i with\n" + "\n".join(rows) + "\n  | _ => i\n  end.")
+    return "\n".join(out) + "\n"
+
+# ---------------------------------------------------------------------------------------------------------------------
+# deterministic_allocation.py: MaximumWeightMatching.__init__ / scf (the solver call is an oracle)
+# ---------------------------------------------------------------------------------------------------------------------
+def translate_mwm(repo):
+    src = open(os.path.join(repo, "socialchoicekit", "deterministic_allocation.py")).read()
+    mod = ast.parse(src)
+    cls = _find(mod.body, ast.ClassDef, "MaximumWeightMatching")
+    meths = [x for x in cls.body if isinstance(x, ast.FunctionDef)]
+    if [x.name for x in meths] != ["__init__", "scf"]: _fail(cls, "__init__ and scf expected")
+    if any(x.decorator_list for x in meths): _fail(cls, "decorated method")
+    b = _body(meths[0])
+    ok = (len(b) == 1 and isinstance(b[0], ast.Assign) and selfattr(b[0].targets[0], "index_fixer") and isinstance(b[0].value, ast.IfExp) and is_name(b[0].value.test, "zero_indexed")
+          and _intconst(b[0].value.body) is not None and _intconst(b[0].value.orelse) is not None)
+    if not ok: _fail(meths[0], "self.index_fixer = 0 if zero_indexed else 1 expected")
+    fz, fo = _intconst(b[0].value.body), _intconst(b[0].value.orelse)
+    scf = meths[1]; V = scf.args.args[1].arg
+    b = _body(scf)
+    if len(b) != 4: _fail(scf, "four statements expected in scf")
+    s1, s2, s3, s4 = b
+    ok = isinstance(s1, ast.Expr) and isinstance(s1.value, ast.Call) and is_name(s1.value.func, "check_square_matrix") and len(s1.value.args) == 1 and is_name(s1.value.args[0], V)
+    if not ok: _fail(s1, "check_square_matrix(valuation_profile) expected")
+    v = s2.value if isinstance(s2, ast.Assign) and isinstance(s2.targets[0], ast.Name) else None
+    ok = (v is not None and isinstance(v, ast.Call) and _is_np(v.func, "where") and len(v.args) == 3 and isinstance(v.args[0], ast.Call) and _is_np(v.args[0].func, "isnan")
+          and is_name(v.args[0].args[0], V) and isinstance(v.args[1], ast.UnaryOp) and isinstance(v.args[1].op, ast.USub) and _is_np(v.args[1].operand, "inf")
+          and isinstance(v.args[2], ast.Call) and _is_np(v.args[2].func, "array") and is_name(v.args[2].args[0], V)
+          and [k.arg for k in v.args[2].keywords] == ["dtype"] and is_name(v.args[2].keywords[0].value, "float"))
+    if not ok: _fail(s2, "weights = np.where(np.isnan(V), -np.inf, np.array(V, dtype=float)) expected")
+    W = s2.targets[0].id
+    ok = (isinstance(s3, ast.Try) and len(s3.body) == 1 and len(s3.handlers) == 1 and not s3.orelse and not s3.finalbody and is_name(s3.handlers[0].type, "ValueError")
+          and len(s3.handlers[0].body) == 1 and isinstance(s3.handlers[0].body[0], ast.Raise))
+    if ok:
+        a = s3.body[0]
+        ok = (isinstance(a, ast.Assign) and isinstance(a.targets[0], ast.Tuple) and len(a.targets[0].elts) == 2 and isinstance(a.targets[0].elts[1], ast.Name)
+              and isinstance(a.value, ast.Call) and is_name(a.value.func, "linear_sum_assignment") and len(a.value.args) == 1 and is_name(a.value.args[0], W)
+              and [(k.arg, getattr(k.value, "value", None)) for k in a.value.keywords] == [("maximize", True)])
+        r = s3.handlers[0].body[0].exc
+        ok = ok and isinstance(r, ast.Call) and is_name(r.func, "ValueError")
+    if not ok: _fail(s3, "try: _, col_ind = linear_sum_assignment(weights, maximize=True) except ValueError: raise ValueError(...) expected")
+    COL = s3.body[0].targets[0].elts[1].id
+    ok = isinstance(s4, ast.Return) and isinstance(s4.value, ast.BinOp) and isinstance(s4.value.op, ast.Add) and is_name(s4.value.left, COL) and selfattr(s4.value.right, "index_fixer")
+    if not ok: _fail(s4, "return col_ind + self.index_fixer expected")
+    return "\n".join(["(* GENERATED by harness/translate.py from MaximumWeightMatching (deterministic_allocation.py). Do not edit. *)",
+        "From Coq Require Import ZArith QArith List Bool.", "Import ListNotations.", "",
+        "(* the matrix handed to the solver: minus infinity on the NaN (unacceptable) pairs, the utility itself elsewhere *)",
+        "Inductive ext := NegInf | Fin (q : Q).",
+        "Definition gen_mwm_fixer (zero_indexed : bool) : Z := if zero_indexed then %d%%Z else %d%%Z." % (fz, fo),
+        "Definition gen_mwm_weights (V : list (list (option Q))) : list (list ext) := map (map (fun x => match x with None => NegInf | Some v => Fin v end)) V.",
+        "(* scipy's linear_sum_assignment(weights, maximize=True) is an oracle: None = it raised ValueError (re-raised by scf), Some col = its column indices *)",
+        "Definition gen_mwm_scf (zero_indexed : bool) (solver : list (list ext) -> option (list nat)) (V : list (list (option Q))) : option (list Z) :=",
+        "  match solver (gen_mwm_weights V) with None => None | Some col_ind => Some (map (fun c => (Z.of_nat c + gen_mwm_fixer zero_indexed)%Z) col_ind) end.", ""])
+
+
+RSD_PRELUDE = '''(* np.nanargmin of a row: the first index holding the smallest non-NaN entry (0 if there is none; the code never asks then) *)
+Fixpoint nanargmin_from (row : list (option Z)) (j : nat) (best : option (nat * Z)) : option (nat * Z) :=
+  match row with
+  | [] => best
+  | r :: t => nanargmin_from t (S j) (match r with None => best | Some rk => match best with None => Some (j, rk) | Some (_, rb) => if rk <? rb then Some (j, rk) else best end end)
+  end.
+Definition nanargmin (row : list (option Z)) : nat := match nanargmin_from row 0 None with Some (j, _) => j | None => O end.
+Definition allnan (row : list (option Z)) : bool := forallb (fun x => match x with None => true | Some _ => false end) row.
+'''
+
+def translate_rsd(repo):
+    """RandomSerialDictatorship.__init__ / scf: the shuffled order is an argument (oracle); pref[:, item] = np.nan blanks a column"""
+    src = open(os.path.join(repo, "socialchoicekit", "randomized_allocation.py")).read()
+    cls = _find(ast.parse(src).body, ast.ClassDef, "RandomSerialDictatorship")
+    meths = [x for x in cls.body if isinstance(x, ast.FunctionDef)]
+    if [x.name for x in meths] != ["__init__", "scf"] or any(x.decorator_list for x in meths): _fail(cls, "__init__ and scf expected")
+    b = _body(meths[0])
+    ok = (len(b) == 1 and isinstance(b[0], ast.Assign) and selfattr(b[0].targets[0], "index_fixer") and isinstance(b[0].value, ast.IfExp) and is_name(b[0].value.test, "zero_indexed")
+          and _intconst(b[0].value.body) is not None and _intconst(b[0].value.orelse) is not None)
+    if not ok: _fail(meths[0], "self.index_fixer = 0 if zero_indexed else 1 expected")
+    fz, fo = _intconst(b[0].value.body), _intconst(b[0].value.orelse)
+    scf = meths[1]; PR = scf.args.args[1].arg
+    b = _body(scf)
+    if len(b) != 6: _fail(scf, "six statements expected in scf")
+    s1, s2, s3, s4, s5, s6 = b
+    def view(e): return isinstance(e, ast.Call) and isinstance(e.func, ast.Attribute) and e.func.attr == "view" and is_name(e.func.value, PR) and len(e.args) == 1 and _is_np(e.args[0], "ndarray")
+    ok = (isinstance(s1, ast.Assign) and isinstance(s1.targets[0], ast.Name) and isinstance(s1.value, ast.Call) and _is_np(s1.value.func, "array") and len(s1.value.args) == 1
+          and (view(s1.value.args[0]) or is_name(s1.value.args[0], PR)) and [k.arg for k in s1.value.keywords] == ["dtype"] and is_name(s1.value.keywords[0].value, "float"))
+    if not ok: _fail(s1, "pref = np.array(profile.view(np.ndarray), dtype=float) expected")
+    PREF = s1.targets[0].id
+    def shape0(e, who): return isinstance(e, ast.Subscript) and isinstance(e.value, ast.Attribute) and e.value.attr == "shape" and is_name(e.value.value, who) and _intconst(e.slice) == 0
+    ok = (isinstance(s2, ast.Assign) and isinstance(s2.targets[0], ast.Name) and isinstance(s2.value, ast.Call) and _is_np(s2.value.func, "full") and len(s2.value.args) == 2
+          and (shape0(s2.value.args[0], PR) or shape0(s2.value.args[0], PREF)) and _is_np(s2.value.args[1], "nan"))
+    if not ok: _fail(s2, "allocation = np.full(profile.shape[0], np.nan) expected")
+    AL = s2.targets[0].id
+    ok = (isinstance(s3, ast.Assign) and isinstance(s3.targets[0], ast.Name) and isinstance(s3.value, ast.Call) and _is_np(s3.value.func, "arange") and len(s3.value.args) == 1
+          and (shape0(s3.value.args[0], PR) or shape0(s3.value.args[0], PREF)))
+    if not ok: _fail(s3, "order = np.arange(pref.shape[0]) expected")
+    ORD = s3.targets[0].id
+    ok = (isinstance(s4, ast.Expr) and isinstance(s4.value, ast.Call) and isinstance(s4.value.func, ast.Attribute) and s4.value.func.attr == "shuffle" and len(s4.value.args) == 1 and is_name(s4.value.args[0], ORD))
+    if not ok: _fail(s4, "np.random.shuffle(order) expected")
+    if not (isinstance(s6, ast.Return) and is_name(s6.value, AL)): _fail(s6, "return allocation expected")
+    if not (isinstance(s5, ast.For) and isinstance(s5.target, ast.Name) and is_name(s5.iter, ORD) and len(s5.body) == 4 and not s5.orelse): _fail(s5, "for agent in order: (four statements) expected")
+    AG = s5.target.id; b1, b2, b3, b4 = s5.body
+    def prefrow(e): return isinstance(e, ast.Subscript) and is_name(e.value, PREF) and is_name(e.slice, AG)
+    t = b1.test if isinstance(b1, ast.If) and not b1.orelse and len(b1.body) == 1 and isinstance(b1.body[0], ast.Continue) else None
+    ok = (t is not None and isinstance(t, ast.Call) and _is_np(t.func, "all") and len(t.args) == 1 and isinstance(t.args[0], ast.Call) and _is_np(t.args[0].func, "isnan") and prefrow(t.args[0].args[0]))
+    if not ok: _fail(b1, "if np.all(np.isnan(pref[agent])): continue expected")
+    ok = isinstance(b2, ast.Assign) and isinstance(b2.targets[0], ast.Name) and isinstance(b2.value, ast.Call) and _is_np(b2.value.func, "nanargmin") and len(b2.value.args) == 1 and prefrow(b2.value.args[0]) and not b2.value.keywords
+    if not ok: _fail(b2, "item = np.nanargmin(pref[agent]) expected")
+    IT = b2.targets[0].id
+    v = b3.value if isinstance(b3, ast.Assign) else None
+    ok = (v is not None and isinstance(b3.targets[0], ast.Subscript) and is_name(b3.targets[0].value, AL) and is_name(b3.targets[0].slice, AG) and isinstance(v, ast.BinOp) and isinstance(v.op, ast.Add)
+          and selfattr(v.right, "index_fixer") and ((isinstance(v.left, ast.Call) and is_name(v.left.func, "int") and is_name(v.left.args[0], IT)) or is_name(v.left, IT)))
+    if not ok: _fail(b3, "allocation[agent] = int(item) + self.index_fixer expected")
+    ok = (isinstance(b4, ast.Assign) and isinstance(b4.targets[0], ast.Subscript) and is_name(b4.targets[0].value, PREF) and isinstance(b4.targets[0].slice, ast.Tuple) and len(b4.targets[0].slice.elts) == 2
+          and isinstance(b4.targets[0].slice.elts[0], ast.Slice) and b4.targets[0].slice.elts[0].lower is None and b4.targets[0].slice.elts[0].upper is None and b4.targets[0].slice.elts[0].step is None
+          and is_name(b4.targets[0].slice.elts[1], IT) and _is_np(b4.value, "nan"))
+    if not ok: _fail(b4, "pref[:, item] = np.nan expected")
+    return "\n".join(["(* GENERATED by harness/translate.py from RandomSerialDictatorship (randomized_allocation.py). Do not edit. *)",
+        "From Coq Require Import ZArith List Bool.", "Import ListNotations.", "From SCK Require Import RSD.", "Local Open Scope Z_scope.", "", RSD_PRELUDE,
+        "Definition gen_rsd_fixer (zero_indexed : bool) : Z := if zero_indexed then %d else %d." % (fz, fo),
+        "(* scf: `order` is the shuffled np.arange(n) (an oracle); NaN in the allocation is None *)",
+        "Definition gen_rsd (fixer : Z) (%s : list (list (option Z))) (%s : list nat) : list (option Z) :=" % (PR, ORD),
+        "  let %s := %s in" % (PREF, PR),
+        "  let %s := repeat (@None Z) (length %s) in" % (AL, PR),
+        "  fst (fold_left (fun (st_ : list (option Z) * list (list (option Z))) (%s : nat) => let '(%s, %s) := st_ in" % (AG, AL, PREF),
+        "         if allnan (nth %s %s []) then (%s, %s) else" % (AG, PREF, AL, PREF),
+        "         let %s := nanargmin (nth %s %s []) in" % (IT, AG, PREF),
+        "         let %s := upd %s %s (Some (Z.of_nat %s + fixer)) in" % (AL, AL, AG, IT),
+        "         let %s := map (fun row_ => upd row_ %s None) %s in" % (PREF, IT, PREF),
+        "         (%s, %s)) %s (%s, %s))." % (AL, PREF, ORD, AL, PREF), ""])
+
+
+# ---------------------------------------------------------------------------------------------------------------------
+# deterministic_matching.py: GaleShapley.scf, resident-oriented branch -> Gallina.
+# State of the main loop as total functions (a dict with .get(k, d) / an array = a function with default d / initial value):
+#   resident_applications : nat -> Z, hospital_waiting_lists : nat -> list Z (the heaps of negated ranks, as unordered lists:
+#   heappush = cons, heappop = remove the minimum), next_current_applicants : nat -> Z.
+# rprofile / hprofile are the matrices of 0-based ranks (the code's `profile - 1`), NaN = None; np.argsort(.., axis=1) is the
+# stable argsort with NaN last (Argsort.argsort) of every row.
+# ---------------------------------------------------------------------------------------------------------------------
+GS_PRELUDE = '''Definition okz (k : okey) : Z := match k with Some x => Z.of_nat x | None => 0 end.
+Definition isnan (k : okey) : bool := match k with None => true | Some _ => false end.
+Fixpoint minl (l : list Z) : Z := match l with [] => 0 | x :: r => match r with [] => x | _ => Z.min x (minl r) end end.
+Fixpoint rem1z (x : Z) (l : list Z) : list Z := match l with [] => [] | y :: r => if x =? y then r else y :: rem1z x r end.
+'''
+
+class GsC:
+    """store-passing compiler for the body of `for resident in range(n)`"""
+    def __init__(self, names, state):
+        self.n = names          # python names: R (rprofile), H (hprofile), RR, RH (ranked), C (capacities), M (m)
+        self.state = state      # [resident_applications, hospital_waiting_lists, next_current_applicants]
+        self.kind = {}          # local name -> 'Z' | 'nat' | ('alias', dictname, keytext)
+        self.fz = set()         # names of nat -> Z functions (readable with X[i])
+    def fall(self): return "(" + ", ".join(self.state) + ")"
+    def natx(self, e):
+        if isinstance(e, ast.Name) and self.kind.get(e.id) == "nat": return e.id
+        if isinstance(e, ast.Name) and self.kind.get(e.id) == "Z": return "(Z.to_nat %s)" % e.id       # an integer used as an index
+        _fail(e, "index name expected")
+    def rank_at(self, e):
+        """rprofile[a, b] / hprofile[a, b] -> okey"""
+        if isinstance(e, ast.Subscript) and isinstance(e.value, ast.Name) and e.value.id in (self.n["R"], self.n["H"]) and isinstance(e.slice, ast.Tuple) and len(e.slice.elts) == 2:
+            M = "R" if e.value.id == self.n["R"] else "H"
+            return "(nth %s (nth %s %s []) None)" % (self.natx(e.slice.elts[1]), self.natx(e.slice.elts[0]), M)
+        return None
+    def zx(self, e):
+        k = _intconst(e)
+        if k is not None: return str(k) if k >= 0 else "(%d)" % k
+        if isinstance(e, ast.Name):
+            if self.kind.get(e.id) == "Z": return e.id
+            if self.kind.get(e.id) == "nat": return "(Z.of_nat %s)" % e.id
+            if e.id == self.n["M"]: return "(Z.of_nat m)"
+            if e.id == self.n["N"]: return "(Z.of_nat n)"
+        if isinstance(e, ast.BinOp) and isinstance(e.op, (ast.Add, ast.Sub)): return "(%s %s %s)" % (self.zx(e.left), "+" if isinstance(e.op, ast.Add) else "-", self.zx(e.right))
+        if isinstance(e, ast.BinOp) and isinstance(e.op, ast.Mult) and _intconst(e.right) == -1: return "(- %s)" % self.zx(e.left)
+        if isinstance(e, ast.Subscript) and isinstance(e.value, ast.Name) and e.value.id in self.fz: return "(%s %s)" % (e.value.id, self.natx(e.slice))
+        if isinstance(e, ast.Call) and is_name(e.func, "int") and len(e.args) == 1: return self.zx(e.args[0])
+        r = self.rank_at(e)
+        if r is not None: return "(okz %s)" % r
+        _fail(e, "unsupported integer expression")
+    def bx(self, t):
+        if isinstance(t, ast.BoolOp) and isinstance(t.op, ast.Or): return "(" + " || ".join(self.bx(v) for v in t.values) + ")"
+        if isinstance(t, ast.Call) and _is_np(t.func, "isnan") and len(t.args) == 1:
+            r = self.rank_at(t.args[0])
+            if r is not None: return "(isnan %s)" % r
+        if isinstance(t, ast.Compare) and len(t.ops) == 1:
+            l, r, op = t.left, t.comparators[0], t.ops[0]
+            # len(alias) <= c[h]
+            if (isinstance(l, ast.Call) and is_name(l.func, "len") and isinstance(l.args[0], ast.Name) and isinstance(self.kind.get(l.args[0].id), tuple) and isinstance(op, ast.LtE)
+                    and isinstance(r, ast.Subscript) and is_name(r.value, self.n["C"])):
+                _, d, key = self.kind[l.args[0].id]
+                return "(length (%s %s) <=? nth %s c 0)%%nat" % (d, key, self.natx(r.slice))
+            ops = {ast.Eq: "(%s =? %s)", ast.NotEq: "(negb (%s =? %s))", ast.GtE: "(%s >=? %s)", ast.Gt: "(%s >? %s)", ast.LtE: "(%s <=? %s)", ast.Lt: "(%s <? %s)"}
+            if type(op) in ops: return ops[type(op)] % (self.zx(l), self.zx(r))
+        _fail(t, "unsupported test")
+    def ranked_at(self, e):
+        """ranked_rprofile[a, zexpr] -> nat"""
+        if isinstance(e, ast.Subscript) and isinstance(e.value, ast.Name) and e.value.id in (self.n["RR"], self.n["RH"]) and isinstance(e.slice, ast.Tuple) and len(e.slice.elts) == 2:
+            M = "R" if e.value.id == self.n["RR"] else "H"
+            return M, e.slice.elts[0], e.slice.elts[1]
+        return None
+    def block(self, stmts):
+        if not stmts: return self.fall()
+        s, rest = stmts[0], stmts[1:]
+        more = lambda: self.block(rest)
+        if isinstance(s, ast.Continue): return self.fall()
+        if isinstance(s, ast.If) and not s.orelse:
+            a = GsC(self.n, self.state); a.kind = dict(self.kind); a.fz = set(self.fz); a.fzstate = getattr(self, "fzstate", set())
+            if isinstance(s.body[-1], ast.Continue):
+                return "if %s then %s else\n%s" % (self.bx(s.test), a.block(list(s.body)), more())
+            b2 = GsC(self.n, self.state); b2.kind = dict(self.kind); b2.fz = set(self.fz); b2.fzstate = getattr(self, "fzstate", set())
+            return "if %s then %s else\n%s" % (self.bx(s.test), a.block(list(s.body) + rest), b2.block(rest))
+        if isinstance(s, ast.AugAssign) and isinstance(s.op, (ast.Add, ast.Sub)) and isinstance(s.target, ast.Subscript) and isinstance(s.target.value, ast.Name) and s.target.value.id in getattr(self, "fzstate", set()):
+            X = s.target.value.id; i = self.natx(s.target.slice)
+            return "let %s := fupd %s %s (%s %s %s %s) in\n" % (X, X, i, X, i, "+" if isinstance(s.op, ast.Add) else "-", self.zx(s.value)) + more()
+        if isinstance(s, ast.Assign) and len(s.targets) == 1:
+            t, v = s.targets[0], s.value
+            if isinstance(t, ast.Name):
+                # v = D.get(k, default)
+                if isinstance(v, ast.Call) and isinstance(v.func, ast.Attribute) and v.func.attr == "get" and isinstance(v.func.value, ast.Name) and len(v.args) == 2:
+                    d = v.func.value.id
+                    if d == self.state[0] and _intconst(v.args[1]) == -1:
+                        self.kind[t.id] = "Z"; return "let %s := %s %s in\n" % (t.id, d, self.natx(v.args[0])) + more()
+                    if d == self.state[1] and isinstance(v.args[1], ast.List) and not v.args[1].elts:
+                        self.kind[t.id] = ("alias", d, self.natx(v.args[0])); return more()       # the list object stored in the dict (every key 0..m-1 exists)
+                    _fail(s, "unsupported dict.get")
+                ra = self.ranked_at(v)
+                if ra is not None:
+                    M, a, idx = ra
+                    pre = ""
+                    if (isinstance(idx, ast.BinOp) and isinstance(idx.op, ast.Mult) and _intconst(idx.right) == -1 and isinstance(idx.left, ast.Call) and isinstance(idx.left.func, ast.Attribute)
+                            and idx.left.func.attr == "heappop" and len(idx.left.args) == 1 and isinstance(idx.left.args[0], ast.Name) and isinstance(self.kind.get(idx.left.args[0].id), tuple)):
+                        _, d, key = self.kind[idx.left.args[0].id]
+                        pre = "let popped_ := minl (%s %s) in\nlet %s := fupd %s %s (rem1z popped_ (%s %s)) in\n" % (d, key, d, d, key, d, key)
+                        ztxt = "(- popped_)"
+                    else:
+                        ztxt = self.zx(idx)
+                    self.kind[t.id] = "nat"
+                    return pre + "let %s := nth (Z.to_nat %s) (argsort (nth %s %s [])) O in\n" % (t.id, ztxt, self.natx(a), M) + more()
+                if isinstance(v, ast.Subscript) and isinstance(v.value, ast.Name) and v.value.id in getattr(self, "fzstate", set()):
+                    self.kind[t.id] = "Z"; return "let %s := %s %s in\n" % (t.id, v.value.id, self.natx(v.slice)) + more()
+                _fail(s, "unsupported assignment")
+            if isinstance(t, ast.Name) and isinstance(v, ast.Subscript) and isinstance(v.value, ast.Name) and v.value.id in getattr(self, "fzstate", set()):
+                self.kind[t.id] = "Z"; return "let %s := %s %s in\n" % (t.id, v.value.id, self.natx(v.slice)) + more()
+            if isinstance(t, ast.Subscript) and isinstance(t.value, ast.Name) and (t.value.id in (self.state[0], self.state[2]) or t.value.id in getattr(self, "fzstate", set())):
+                return "let %s := fupd %s %s %s in\n" % (t.value.id, t.value.id, self.natx(t.slice), self.zx(v)) + more()
+            _fail(s, "unsupported store")
+        if isinstance(s, ast.Expr) and isinstance(s.value, ast.Call) and isinstance(s.value.func, ast.Attribute) and s.value.func.attr == "heappush" and len(s.value.args) == 2:
+            a0 = s.value.args[0]
+            if not (isinstance(a0, ast.Name) and isinstance(self.kind.get(a0.id), tuple)): _fail(s, "heappush on the aliased waiting list expected")
+            _, d, key = self.kind[a0.id]
+            return "let %s := fupd %s %s (%s :: %s %s) in\n" % (d, d, key, self.zx(s.value.args[1]), d, key) + more()
+        _fail(s, "unsupported statement in the loop body")
+
+def U(node): return re.sub(r"\s+", " ", ast.unparse(node)).strip()
+
+def translate_gs_res(repo):
+    src = open(os.path.join(repo, "socialchoicekit", "deterministic_matching.py")).read()
+    cls = _find(ast.parse(src).body, ast.ClassDef, "GaleShapley")
+    scf = _find(cls.body, ast.FunctionDef, "scf")
+    if scf.decorator_list: _fail(scf, "decorated")
+    meths = [x.name for x in cls.body if isinstance(x, ast.FunctionDef)]
+    if meths != ["__init__", "scf"]: _fail(cls, "__init__ and scf expected in GaleShapley")
+    ib = [U(x) for x in _body(_find(cls.body, ast.FunctionDef, "__init__"))]
+    if ib != ["self.index_fixer = 0 if zero_indexed else 1", "self.resident_oriented = resident_oriented"]: _fail(cls, "GaleShapley.__init__ shape")
+    ps = [a.arg for a in scf.args.args]
+    if len(ps) != 4: _fail(scf, "scf(self, resident_profile, hospital_profile, c) expected")
+    _, RP, HP, C = ps
+    b = _body(scf)
+    if len(b) != 8: _fail(scf, "eight top-level statements expected in scf")
+    pat = [r"(\w+) = %s\.shape\[0\]" % RP, r"(\w+) = %s\.shape\[1\]" % RP]
+    m0, m1 = re.fullmatch(pat[0], U(b[0])), re.fullmatch(pat[1], U(b[1]))
+    if not (m0 and m1): _fail(b[0], "n = resident_profile.shape[0]; m = resident_profile.shape[1] expected")
+    N, M = m0.group(1), m1.group(1)
+    if U(b[2]) != "if %s != %s.shape[1] or %s != %s.shape[0]: raise ValueError('The resident profile and hospital profile dimensions do not match.')" % (N, HP, M, HP):
+        _fail(b[2], "dimension guard expected")
+    m3 = re.fullmatch(r"(\w+) = %s\.view\(np\.ndarray\) - 1" % RP, U(b[3])); m4 = re.fullmatch(r"(\w+) = %s\.view\(np\.ndarray\) - 1" % HP, U(b[4]))
+    if not (m3 and m4): _fail(b[3], "rprofile = resident_profile.view(np.ndarray) - 1 (and the same for the hospitals) expected")
+    R, H = m3.group(1), m4.group(1)
+    m5 = re.fullmatch(r"(\w+) = np\.argsort\(%s, axis=1\)" % R, U(b[5])); m6 = re.fullmatch(r"(\w+) = np\.argsort\(%s, axis=1\)" % H, U(b[6]))
+    if not (m5 and m6): _fail(b[5], "ranked_rprofile = np.argsort(rprofile, axis=1) (and the same for the hospitals) expected")
+    RR, RH = m5.group(1), m6.group(1)
+    top = b[7]
+    if not (isinstance(top, ast.If) and selfattr(top.test, "resident_oriented") and top.orelse): _fail(top, "if self.resident_oriented: ... else: ... expected")
+    A = list(top.body)
+    if len(A) != 7: _fail(top, "seven statements expected in the resident-oriented branch")
+    a1, a2, a3, a4, a5, a6, a7 = A
+    g1 = re.fullmatch(r"(\w+) = \{\}", U(a1)); g2 = re.fullmatch(r"(\w+) = \{(\w+): \[\] for \2 in range\(%s\)\}" % M, U(a2)); g3 = re.fullmatch(r"(\w+) = np\.ones\(%s, dtype=int\)" % N, U(a3))
+    if not (g1 and g2 and g3): _fail(a1, "resident_applications = {}; hospital_waiting_lists = {i: [] for i in range(m)}; next_current_applicants = np.ones(n, dtype=int) expected")
+    RA, HWL, NCA = g1.group(1), g2.group(1), g3.group(1)
+    if not (isinstance(a4, ast.While) and U(a4.test) == "True" and len(a4.body) == 3 and not a4.orelse): _fail(a4, "while True: (three statements) expected")
+    w1, w2, w3 = a4.body
+    if U(w1) != "if np.all(%s != 1): break" % NCA: _fail(w1, "if np.all(next_current_applicants != 1): break expected")
+    g = re.fullmatch(r"(\w+) = np\.array\(%s\)" % NCA, U(w2))
+    if not g: _fail(w2, "current_applicants = np.array(next_current_applicants) expected")
+    CA = g.group(1)
+    if not (isinstance(w3, ast.For) and isinstance(w3.target, ast.Name) and U(w3.iter) == "range(%s)" % N and not w3.orelse): _fail(w3, "for resident in range(n) expected")
+    RES = w3.target.id
+    names = dict(R=R, H=H, RR=RR, RH=RH, C=C, M=M, N=N)
+    c = GsC(names, [RA, HWL, NCA]); c.kind[RES] = "nat"; c.fz = {CA, NCA}
+    body = c.block(list(w3.body))
+    # output
+    g5 = re.fullmatch(r"(\w+) = \[\]", U(a5))
+    if not g5: _fail(a5, "ans = [] expected")
+    ANS = g5.group(1)
+    if U(a7) != "return %s" % ANS: _fail(a7, "return ans expected")
+    ok = isinstance(a6, ast.For) and isinstance(a6.target, ast.Name) and U(a6.iter) == "range(%s)" % M and len(a6.body) == 1 and isinstance(a6.body[0], ast.For)
+    if ok:
+        HO = a6.target.id; inner = a6.body[0]
+        ok = isinstance(inner.target, ast.Name) and U(inner.iter) == "%s.get(%s, [])" % (HWL, HO) and len(inner.body) == 1
+    if ok:
+        RK = inner.target.id
+        ok = U(inner.body[0]) == "%s.append((int(%s[%s, %s * -1]) + self.index_fixer, %s + self.index_fixer))" % (ANS, RH, HO, RK, HO)
+    if not ok: _fail(a6, "the read-off loop over the waiting lists expected")
+    sty = "(nat -> Z) * (nat -> list Z) * (nat -> Z)"
+    return "\n".join(["(* GENERATED by harness/translate.py from GaleShapley.scf, resident-oriented branch (deterministic_matching.py, line %d). Do not edit. *)" % scf.lineno,
+        "From Coq Require Import ZArith List Bool.", "Import ListNotations.", "From SCK Require Import Argsort GS2.", "Local Open Scope Z_scope.", "", GS_PRELUDE,
+        "Section GenRes.", "Variables (R H : list (list okey)) (c : list nat).      (* 0-based ranks (profile - 1), NaN = None; capacities *)",
+        "Let n := length R.", "Let m := length (nth 0 R []).", "",
+        "Definition gen_res_step (%s : nat -> Z) (st_ : %s) (%s : nat) : %s :=" % (CA, sty, RES, sty),
+        "let '(%s, %s, %s) := st_ in" % (RA, HWL, NCA), body + ".", "",
+        "Fixpoint gen_res_loop (fuel : nat) (st_ : %s) : option (%s) :=" % (sty, sty),
+        "  match fuel with O => None | S f =>", "    let '(%s, %s, %s) := st_ in" % (RA, HWL, NCA),
+        "    if forallb (fun i_ => negb (%s i_ =? 1)) (seq 0 n) then Some st_" % NCA,
+        "    else gen_res_loop f (fold_left (gen_res_step %s) (seq 0 n) st_)" % NCA, "  end.",
+        "Definition gen_res_init : %s := (fun _ => -1, fun _ => [], fun _ => 1)." % sty,
+        "Definition gen_res_out (fixer : Z) (st_ : %s) : list (Z * Z) :=" % sty,
+        "  let '(%s, %s, %s) := st_ in" % (RA, HWL, NCA),
+        "  flat_map (fun %s : nat => map (fun %s : Z => (Z.of_nat (nth (Z.to_nat (- %s)) (argsort (nth %s H [])) O) + fixer, Z.of_nat %s + fixer)) (%s %s)) (seq 0 m)." % (HO, RK, RK, HO, HO, HWL, HO),
+        "(* None = the ValueError of the dimension guard or out of fuel *)",
+        "Definition gen_gs_res (fixer : Z) (fuel : nat) : option (list (Z * Z)) :=",
+        "  if negb ((n =? length (nth 0 H []))%nat && (m =? length H)%nat) then None else",
+        "  match gen_res_loop fuel gen_res_init with Some st_ => Some (gen_res_out fixer st_) | None => None end.",
+        "End GenRes.", ""])
+
+
+def translate_gs_hosp(repo):
+    src = open(os.path.join(repo, "socialchoicekit", "deterministic_matching.py")).read()
+    cls = _find(ast.parse(src).body, ast.ClassDef, "GaleShapley")
+    scf = _find(cls.body, ast.FunctionDef, "scf")
+    ps = [a.arg for a in scf.args.args]; _, RP, HP, C = ps
+    b = _body(scf)
+    if len(b) != 8: _fail(scf, "eight top-level statements expected in scf")
+    N = re.fullmatch(r"(\w+) = %s\.shape\[0\]" % RP, U(b[0])).group(1); M = re.fullmatch(r"(\w+) = %s\.shape\[1\]" % RP, U(b[1])).group(1)
+    R = re.fullmatch(r"(\w+) = %s\.view\(np\.ndarray\) - 1" % RP, U(b[3])).group(1); H = re.fullmatch(r"(\w+) = %s\.view\(np\.ndarray\) - 1" % HP, U(b[4])).group(1)
+    RR = re.fullmatch(r"(\w+) = np\.argsort\(%s, axis=1\)" % R, U(b[5])).group(1); RH = re.fullmatch(r"(\w+) = np\.argsort\(%s, axis=1\)" % H, U(b[6])).group(1)
+    B = list(b[7].orelse)
+    if len(B) != 8: _fail(b[7], "eight statements expected in the hospital-oriented branch")
+    b1, b2, b3, b4, b5, b6, b7, b8 = B
+    g1 = re.fullmatch(r"(\w+) = \{\}", U(b1)); g2 = re.fullmatch(r"(\w+) = \{(\w+): -1 for \2 in range\(%s\)\}" % N, U(b2))
+    g3 = re.fullmatch(r"(\w+) = np\.zeros\(%s, dtype=int\)" % M, U(b3)); g4 = re.fullmatch(r"(\w+) = np\.ones\(%s, dtype=int\)" % M, U(b4))
+    if not (g1 and g2 and g3 and g4): _fail(b1, "hospital_offers = {}; resident_waiting_lists = {i: -1 ...}; hospital_accepted_offers = np.zeros(m, dtype=int); current_offerers = np.ones(m, dtype=int) expected")
+    HO, RWL, HAO, CO = g1.group(1), g2.group(1), g3.group(1), g4.group(1)
+    if not (isinstance(b5, ast.While) and U(b5.test) == "True" and len(b5.body) == 3 and not b5.orelse): _fail(b5, "while True: (three statements) expected")
+    w1, w2, w3 = b5.body
+    if U(w1) != "%s = np.where(%s == 2, 2, np.where(%s == %s, 0, 1))" % (CO, CO, C, HAO): _fail(w1, "the re-flagging of current_offerers expected")
+    if U(w2) != "if np.all(%s != 1): break" % CO: _fail(w2, "if np.all(current_offerers != 1): break expected")
+    if not (isinstance(w3, ast.For) and isinstance(w3.target, ast.Name) and U(w3.iter) == "range(%s)" % M and not w3.orelse): _fail(w3, "for hospital in range(m) expected")
+    HS = w3.target.id
+    names = dict(R=R, H=H, RR=RR, RH=RH, C=C, M=M, N=N)
+    c = GsC(names, [HO, RWL, HAO, CO]); c.kind[HS] = "nat"; c.fz = {CO}; c.fzstate = {RWL, HAO, CO}
+    # in this branch the dict read with .get(k, -1) is hospital_offers (state[0]); stores to it and to the arrays are fupd
+    body = c.block(list(w3.body))
+    g6 = re.fullmatch(r"(\w+) = \[\]", U(b6))
+    if not g6: _fail(b6, "ans = [] expected")
+    ANS = g6.group(1)
+    if U(b8) != "return %s" % ANS: _fail(b8, "return ans expected")
+    ok = isinstance(b7, ast.For) and isinstance(b7.target, ast.Name) and U(b7.iter) == "range(%s)" % N and len(b7.body) == 3
+    if ok:
+        RS = b7.target.id; x1, x2, x3 = b7.body
+        gg = re.fullmatch(r"(\w+) = %s\.get\(%s, -1\)" % (RWL, RS), U(x1))
+        ok = gg is not None
+    if ok:
+        HV = gg.group(1)
+        ok = U(x2) == "if %s == -1: continue" % HV and U(x3) == "%s.append((%s + self.index_fixer, %s + self.index_fixer))" % (ANS, RS, HV)
+    if not ok: _fail(b7, "the read-off loop over the residents expected")
+    sty = "(nat -> Z) * (nat -> Z) * (nat -> Z) * (nat -> Z)"
+    tup = "(%s, %s, %s, %s)" % (HO, RWL, HAO, CO)
+    return "\n".join(["(* GENERATED by harness/translate.py from GaleShapley.scf, hospital-oriented branch (deterministic_matching.py). Do not edit. *)",
+        "From Coq Require Import ZArith List Bool.", "Import ListNotations.", "From SCK Require Import Argsort GS2.", "From SCKGen Require Import GsResGen.", "Local Open Scope Z_scope.", "",
+        "Section GenHosp.", "Variables (R H : list (list okey)) (c : list nat).", "Let n := length R.", "Let m := length (nth 0 R []).", "",
+        "Definition gen_hosp_step (st_ : %s) (%s : nat) : %s :=" % (sty, HS, sty), "let '%s := st_ in" % tup, body + ".", "",
+        "Fixpoint gen_hosp_loop (fuel : nat) (st_ : %s) : option (%s) :=" % (sty, sty),
+        "  match fuel with O => None | S f =>", "    let '%s := st_ in" % tup,
+        "    let %s := fun i_ : nat => if %s i_ =? 2 then 2 else if Z.of_nat (nth i_ c 0%%nat) =? %s i_ then 0 else 1 in" % (CO, CO, HAO),
+        "    if forallb (fun i_ => negb (%s i_ =? 1)) (seq 0 m) then Some st_" % CO,
+        "    else gen_hosp_loop f (fold_left gen_hosp_step (seq 0 m) %s)" % tup, "  end.",
+        "Definition gen_hosp_init : %s := (fun _ => -1, fun _ => -1, fun _ => 0, fun _ => 1)." % sty,
+        "Definition gen_hosp_out (fixer : Z) (st_ : %s) : list (Z * Z) :=" % sty, "  let '%s := st_ in" % tup,
+        "  flat_map (fun %s : nat => let %s := %s %s in if %s =? -1 then [] else [(Z.of_nat %s + fixer, %s + fixer)]) (seq 0 n)." % (RS, HV, RWL, RS, HV, RS, HV),
+        "Definition gen_gs_hosp (fixer : Z) (fuel : nat) : option (list (Z * Z)) :=",
+        "  if negb ((n =? length (nth 0 H []))%nat && (m =? length H)%nat) then None else",
+        "  match gen_hosp_loop fuel gen_hosp_init with Some st_ => Some (gen_hosp_out fixer st_) | None => None end.",
+        "End GenHosp.", ""])
